@@ -118,6 +118,31 @@ def run(chk):
         fn = q.split(".")[1]
         chk.kernel(q, replayer=make_replayer(fn) if fn in PUBLIC else None)
         purity(chk, q)
+    # 1b. the public functions accept the documented seed range: the declared parameter type of
+    # `seed` is the full unsigned width of the algorithm (a narrower type in the decorator makes the
+    # dispatcher reduce the seed silently before the - otherwise correct - body sees it)
+    for fname, (spec, sb) in PUBLIC.items():
+        tir = typed_ir(getattr(hashes, fname))
+        ty = dict(zip(tir.arg_names, tir.sig)).get("seed")
+        ok = ty is not None and getattr(ty, "bitwidth", None) == sb and not getattr(ty, "signed", True)
+        fnd = None
+        if not ok:
+            def fnd(fname=fname, spec=spec, sb=sb):
+                f = getattr(hashes, fname)
+                for seed in ((1 << sb) - 1, 1 << (sb - 1), 1 << 32, (1 << 32) + 5, 1 << 16):
+                    if seed >= (1 << sb):
+                        continue
+                    for key in (b"", b"abc", b"0123456789abcdef"):
+                        try:
+                            got = int(f(key, seed))
+                        except Exception as e:
+                            got = "raised %s" % type(e).__name__
+                        if got != spec(key, seed):
+                            return {"key": "%s(%r, %d)" % (fname, key, seed), "function": "sketchnu.hashes." + fname, "args": {"key": key.hex(), "seed": seed}, "expected": spec(key, seed), "observed": got, "how": "seed outside the narrowed parameter type"}
+                return None
+        chk.rows.append({"name": "hashes.%s:signature:seed-is-uint%d" % (fname, sb), "kind": "K", "backend": "typed-ir", "result": "proved" if ok else "refuted", "instances": 1, "seconds": 0.0, "units": 0})
+        if not ok:
+            chk.violation("hashes.%s:signature:seed-is-uint%d" % (fname, sb), {"verdict": "refuted", "detail": "declared type of seed: %s" % ty}, fnd())
     # 2. canary: a deliberately wrong spec constant must be refuted (guards against vacuous VCs)
     from ..contract import REGISTRY
     from ..engine import Engine
